@@ -13,7 +13,28 @@ Open Scope nat_scope.
 Definition safe_exit (x : exit) : Prop :=
   x = XOk \/ x = XErr \/ x = XPanic site_advance_overflow \/ x = XPanic site_advance_assert.
 
-Definition report_ok (ra : bytes * bytes) : Prop := fst ra = snd ra.
+(* a report: (where the slice starts, the slice that was returned, the bytes accepted so far) *)
+Definition report_ok (ra : nat * bytes * bytes) : Prop := snd (fst ra) = snd ra.
+
+(* the reported slice lies in [lo, hi) and the memory m (still) holds it there *)
+Definition report_held (m : bytes) (lo hi : nat) (ra : nat * bytes * bytes) : Prop :=
+  lo <= fst (fst ra) /\ fst (fst ra) + length (snd (fst ra)) <= hi
+  /\ forall i, i < length (snd (fst ra)) -> nth_error m (fst (fst ra) + i) = nth_error (snd (fst ra)) i.
+
+Lemma held_mono m m' lo hi lo' hi' ra :
+  report_held m lo hi ra -> (forall j, j < hi -> nth_error m' j = nth_error m j) ->
+  lo' <= lo -> hi <= hi' -> report_held m' lo' hi' ra.
+Proof.
+  intros [H1 [H2 H3]] Hm Hlo Hhi. split; [lia|]. split; [lia|].
+  intros i Hi. rewrite Hm by lia. apply H3, Hi.
+Qed.
+
+Lemma held_of_acc_ok m v acc : acc_ok m v acc ->
+  report_held m (v_off v) (v_off v + v_init v) (v_off v, acc, acc).
+Proof.
+  intros [La Na]. unfold report_held. cbn [fst snd]. split; [lia|]. split; [lia|].
+  intros i Hi. apply Na. lia.
+Qed.
 
 (* nothing outside [offset+initialized, offset+capacity) differs between m and m' *)
 Definition frame (m m' : bytes) (v : view) : Prop :=
@@ -28,7 +49,9 @@ Record good (total : nat) (m : bytes) (v : view) (acc : bytes) (o : sout) : Prop
   g_frame : frame m (s_mem o) v;
   g_exit : safe_exit (s_exit o);
   g_views : Forall (view_ok total) (s_views o);
-  g_reports : Forall report_ok (s_reports o) }.
+  g_reports : Forall report_ok (s_reports o);
+  (* every slice handed out so far lies in the initialized part and is still intact *)
+  g_held : Forall (report_held (s_mem o) (v_off v) (v_off v + s_init o)) (s_reports o) }.
 
 Section Run.
 Variable total : nat.
@@ -36,19 +59,21 @@ Variable total : nat.
 Lemma good_stop m v acc m' i' acc' evs x reps :
   length m' = total -> view_ok total v -> v_init v <= i' -> i' <= v_cap v ->
   acc_ok m' (with_init v i') acc' -> (exists l, acc' = acc ++ l) -> frame m m' v -> safe_exit x ->
-  Forall report_ok reps ->
+  Forall report_ok reps -> Forall (report_held m' (v_off v) (v_off v + i')) reps ->
   good total m v acc (stop m' (with_init v i') acc' evs x reps).
 Proof.
-  intros Hl Hv Hlo Hhi Ha He Hf Hx Hr. constructor; cbn [stop s_mem s_init s_acc s_exit s_views s_reports with_init v_init];
+  intros Hl Hv Hlo Hhi Ha He Hf Hx Hr Hh. constructor; cbn [stop s_mem s_init s_acc s_exit s_views s_reports with_init v_init];
     try assumption.
   constructor; [|constructor]. apply with_init_ok; assumption.
 Qed.
 
 Lemma good_before m v acc o evs vs reps :
   good total m v acc o -> Forall (view_ok total) vs -> Forall report_ok reps ->
+  Forall (report_held (s_mem o) (v_off v) (v_off v + s_init o)) reps ->
   good total m v acc (before evs vs reps o).
 Proof.
-  intros [] Hv Hr. constructor; cbn [before s_mem s_init s_acc s_exit s_views s_reports]; try assumption.
+  intros [] Hv Hr Hh. constructor; cbn [before s_mem s_init s_acc s_exit s_views s_reports]; try assumption.
+  - apply Forall_app; split; assumption.
   - apply Forall_app; split; assumption.
   - apply Forall_app; split; assumption.
 Qed.
@@ -126,9 +151,10 @@ Ltac gs :=
 (* a closure that stops right here *)
 Lemma good_here m v acc evs x reps :
   length m = total -> view_ok total v -> acc_ok m v acc -> safe_exit x -> Forall report_ok reps ->
+  Forall (report_held m (v_off v) (v_off v + v_init v)) reps ->
   good total m v acc (stop m v acc evs x reps).
 Proof.
-  intros Hl Hv Ha Hx Hr. pose proof Hv as [? ?]. rewrite <- (with_init_same v) at 2.
+  intros Hl Hv Ha Hx Hr Hh. pose proof Hv as [? ?]. rewrite <- (with_init_same v) at 2.
   apply good_stop; try assumption; try lia;
     first [apply acc_ok_same, Ha | exists []; rewrite app_nil_r; reflexivity | apply frame_refl].
 Qed.
@@ -140,7 +166,7 @@ Lemma read_into_good m v acc fail src :
 Proof.
   intros Hl Hv Ha. pose proof Hv as [Hi Ht]. unfold read_into.
   replace (v_cap v <? v_init v) with false by (symmetry; apply Nat.ltb_ge; lia).
-  destruct fail; [apply good_here; try assumption; [apply safe_err|constructor]|].
+  destruct fail; [apply good_here; try assumption; [apply safe_err|constructor|constructor]|].
   set (got := firstn (room v) src).
   assert (Hg : length got <= room v) by (subst got; rewrite firstn_length; lia).
   destruct (store_bytes_spec got m (v_off v + v_init v)) as [m' [E [L N]]]; [unfold room in Hg; lia|].
@@ -153,6 +179,7 @@ Proof.
       by (rewrite L, Hl; apply with_init_ok; assumption).
     rewrite (initialized_spec m' _ (acc ++ got) Hv' Ha').
     apply good_stop; gs.
+    constructor; [|constructor]. exact (held_of_acc_ok _ _ _ Ha').
   - destruct Hadv as [-> Hs]. rewrite <- (with_init_same v) at 2.
     apply good_stop; gs.
 Qed.
@@ -179,24 +206,40 @@ Proof.
   assert (Hf : frame m (s_mem o) v).
   { intros j Hj. apply g_frame0. lia. }
   assert (Hvs : Forall (view_ok total) (v :: s_views o)) by (constructor; assumption).
+  (* the child's reports, seen from the parent right after the Drop *)
+  assert (Hh : Forall (report_held (s_mem o) (v_off v) (v_off v + (v_init v + s_init o))) (s_reports o)).
+  { eapply Forall_impl; [|exact g_held0]. intros ra Hra.
+    apply (held_mono _ _ _ _ _ _ _ Hra); [reflexivity|lia|lia]. }
+  (* ... and after the parent has carried on *)
+  assert (Hk : good total m v acc (cont (s_mem o) (with_init v (v_init v + s_init o)) (acc ++ s_acc o))
+               /\ Forall (report_held (s_mem (cont (s_mem o) (with_init v (v_init v + s_init o)) (acc ++ s_acc o)))
+                            (v_off v)
+                            (v_off v + s_init (cont (s_mem o) (with_init v (v_init v + s_init o)) (acc ++ s_acc o))))
+                         (s_reports o)).
+  { assert (Gk : good total (s_mem o) (with_init v (v_init v + s_init o)) (acc ++ s_acc o)
+                   (cont (s_mem o) (with_init v (v_init v + s_init o)) (acc ++ s_acc o)))
+      by (apply Hcont; try assumption; apply with_init_ok; assumption).
+    split.
+    - apply (good_step m v acc (s_mem o) (v_init v + s_init o) (acc ++ s_acc o)); gs.
+    - destruct Gk as [_ Klo _ _ _ Kf _ _ _ _]. cbn [with_init v_off v_cap v_init] in Klo.
+      eapply Forall_impl; [|exact Hh]. intros ra Hra.
+      apply (held_mono _ _ _ _ _ _ _ Hra); [|lia|lia].
+      intros j Hj. apply Kf. cbn [with_init v_off v_cap v_init]. lia. }
+  destruct Hk as [Hk1 Hk2].
   unfold after_child.
   destruct (s_exit o) as [| |s] eqn:Ex.
   - (* the closure returned Ok *)
     replace (v_cap v <? v_init (with_init v (v_init v + s_init o))) with false
       by (symmetry; apply Nat.ltb_ge; cbn; lia).
-    cbn [andb]. apply good_before; try assumption.
-    apply (good_step m v acc (s_mem o) (v_init v + s_init o) (acc ++ s_acc o)); gs.
-    apply Hcont; try assumption. apply with_init_ok; assumption.
+    cbn [andb]. apply good_before; assumption.
   - (* the closure returned Err *)
     replace (v_cap v <? v_init (with_init v (v_init v + s_init o))) with false
       by (symmetry; apply Nat.ltb_ge; cbn; lia).
     destruct q; cbn [andb].
-    + apply good_before; try assumption. apply good_stop; gs.
-    + apply good_before; try assumption.
-      apply (good_step m v acc (s_mem o) (v_init v + s_init o) (acc ++ s_acc o)); gs.
-      apply Hcont; try assumption. apply with_init_ok; assumption.
+    + apply good_before; try assumption; try exact Hh. apply good_stop; gs.
+    + apply good_before; assumption.
   - (* unwinding *)
-    apply good_before; try assumption. apply good_stop; gs.
+    apply good_before; try assumption; try exact Hh. apply good_stop; gs.
 Qed.
 
 Theorem run_good : forall p m v acc,
@@ -204,10 +247,11 @@ Theorem run_good : forall p m v acc,
 Proof.
   induction p as [| |fail src|q bs k IHk|q bs k IHk|n k IHk|bs k IHk|k IHk|q caps sub IHsub k IHk|caps fail src k IHk];
     intros m v acc Hl Hv Ha; pose proof Hv as [Hi Ht]; cbn [run].
-  - (* PEnd *) apply good_here; try assumption; [apply safe_ok|constructor].
+  - (* PEnd *) apply good_here; try assumption; [apply safe_ok|constructor|constructor].
   - (* PInit *)
     rewrite (initialized_spec m v acc) by (try rewrite Hl; assumption).
-    apply good_here; try assumption; [apply safe_ok|constructor; [reflexivity|constructor]].
+    apply good_here; try assumption; [apply safe_ok|constructor; [reflexivity|constructor]|].
+    constructor; [|constructor]. exact (held_of_acc_ok _ _ _ Ha).
   - (* PReadInto *) apply read_into_good; assumption.
   - (* PWrite *)
     destruct (extend_store bs m v) as [m' [E [L N]]]; [rewrite Hl; exact Hv|]. rewrite E.
@@ -216,9 +260,9 @@ Proof.
     assert (Hle : v_init v + length (firstn (room v) bs) <= v_cap v)
       by (revert Hg; generalize (length (firstn (room v) bs)); unfold room; lia).
     destruct (negb (length bs <=? room v) && q).
-    + apply good_before; [|constructor; [assumption|constructor]|constructor].
+    + apply good_before; [|constructor; [assumption|constructor]|constructor|constructor].
       apply good_stop; gs.
-    + apply good_before; [|constructor; [assumption|constructor]|constructor].
+    + apply good_before; [|constructor; [assumption|constructor]|constructor|constructor].
       apply (good_step m v acc m' (v_init v + length (firstn (room v) bs)) (acc ++ firstn (room v) bs)); gs.
       apply IHk; gs. apply with_init_ok; [assumption|lia].
   - (* PExtend *)
@@ -228,9 +272,9 @@ Proof.
     assert (Hle : v_init v + length (firstn (room v) bs) <= v_cap v)
       by (revert Hg; generalize (length (firstn (room v) bs)); unfold room; lia).
     destruct (negb (length bs <=? room v) && q).
-    + apply good_before; [|constructor; [assumption|constructor]|constructor].
+    + apply good_before; [|constructor; [assumption|constructor]|constructor|constructor].
       apply good_stop; gs.
-    + apply good_before; [|constructor; [assumption|constructor]|constructor].
+    + apply good_before; [|constructor; [assumption|constructor]|constructor|constructor].
       apply (good_step m v acc m' (v_init v + length (firstn (room v) bs)) (acc ++ firstn (room v) bs)); gs.
       apply IHk; gs. apply with_init_ok; [assumption|lia].
   - (* PAdvance *)
@@ -238,7 +282,7 @@ Proof.
     destruct (advance v n) as [v' [[]|e|s|]]; try contradiction.
     + destruct Hadv as [-> Hle].
       rewrite (slice_some m (v_off v + v_init v) (Z.to_nat n)) by lia.
-      apply good_before; [|constructor; [assumption|constructor]|constructor].
+      apply good_before; [|constructor; [assumption|constructor]|constructor|constructor].
       set (exposed := firstn (Z.to_nat n) (skipn (v_off v + v_init v) m)).
       assert (Le : length exposed = Z.to_nat n)
         by (subst exposed; rewrite firstn_length, skipn_length; lia).
@@ -249,7 +293,7 @@ Proof.
       intros i Hi'. destruct (Nat.lt_ge_cases i (v_init v)).
       * rewrite nth_error_app_l by lia. apply Na. assumption.
       * rewrite nth_error_app_r by lia. subst exposed. rewrite nth_error_firstn_skipn by lia. f_equal. lia.
-    + destruct Hadv as [-> Hs]. apply good_here; try assumption; [apply safe_adv, Hs|constructor].
+    + destruct Hadv as [-> Hs]. apply good_here; try assumption; [apply safe_adv, Hs|constructor|constructor].
   - (* PPoke *)
     replace (v_cap v <? v_init v) with false by (symmetry; apply Nat.ltb_ge; lia).
     assert (Hg : length (firstn (room v) bs) <= room v) by (rewrite firstn_length; lia).
@@ -257,14 +301,14 @@ Proof.
       by (revert Hg; generalize (length (firstn (room v) bs)); unfold room; lia).
     destruct (store_bytes_spec (firstn (room v) bs) m (v_off v + v_init v)) as [m' [E [L N]]]; [lia|].
     rewrite E. destruct (spare_store m m' v acc _ Hv Ha Hg N) as [_ [Hf Ha0]].
-    apply good_before; [|constructor; [assumption|constructor]|constructor].
+    apply good_before; [|constructor; [assumption|constructor]|constructor|constructor].
     rewrite <- (with_init_same v) at 2.
     apply (good_step m v acc m' (v_init v) acc); try assumption; try lia.
     { exists []. rewrite app_nil_r. reflexivity. }
     rewrite with_init_same. apply IHk; try assumption; lia.
   - (* PRemaining *)
     rewrite (remaining_spec v total Hv).
-    apply good_before; [|constructor; [assumption|constructor]|constructor].
+    apply good_before; [|constructor; [assumption|constructor]|constructor|constructor].
     apply IHk; assumption.
   - (* PNested *)
     destruct (open_child_spec v caps total Hv) as [c [E [Ho [Hc0 [Hcc _]]]]]. rewrite E.
